@@ -24,8 +24,32 @@ RULE = ("random histories of [np.random.seed(s) | np.random.normal(size=n) | fit
 ASSUMPTIONS = ["dask_ml k_init (seeded data-dependent initialisation) is not modelled; its dependence on the row order is known finding D14"]
 KNOWN_SIG = "seeded-kmeans-init-depends-on-row-order"
 
-ESTS = ["kmeans", "gmm", "isv", "jfa", "isv_dask", "wccn", "ivector"]
-SOURCE = {"kmeans": "localGen", "gmm": "localGen", "isv": "reseedGlobal", "jfa": "reseedGlobal", "isv_dask": "reseedGlobal", "wccn": "none", "ivector": "globalAsIs"}
+ESTS = ["kmeans", "gmm", "isv", "jfa", "isv_dask", "wccn", "ivector", "isv_lazy", "jfa_lazy"]
+SOURCE = {"kmeans": "localGen", "gmm": "localGen", "isv": "reseedGlobal", "jfa": "reseedGlobal", "isv_dask": "reseedGlobal", "wccn": "none", "ivector": "globalAsIs",
+          "isv_lazy": "reseedGlobal", "jfa_lazy": "reseedGlobal"}
+# *_lazy: the machine is constructed without a trained UBM (ubm=None + ubm_kwargs) at the START of the history and fitted where the
+# history says; the model treats that construction as a no-op on the generator (no draw can happen before the UBM exists), so every
+# seeding / draw / other fit between construction and fit must leave the result unchanged.
+LAZY = ("isv_lazy", "jfa_lazy")
+
+
+def construct_lazy(est, cfg, rs, init):
+    from bob.learn.em import ISVMachine, JFAMachine
+
+    kw = dict(n_gaussians=2, max_fitting_steps=2, convergence_threshold=None, random_state=rs,
+              k_means_trainer=None)
+    from bob.learn.em import KMeansMachine
+    kw["k_means_trainer"] = KMeansMachine(2, init_method=np.array(init, dtype=float), random_state=rs, max_iter=2)  # explicit: keeps D14 out
+    if est == "isv_lazy":
+        return ISVMachine(1 + cfg, em_iterations=2, random_state=rs, ubm_kwargs=kw)
+    return JFAMachine(1, 1 + cfg, em_iterations=1, random_state=rs, ubm_kwargs=kw)
+
+
+def fit_lazy(est, cfg, mach, data):
+    mach.fit_using_array(data["X"], data["y"])
+    if est == "isv_lazy":
+        return digest([mach.ubm.means, mach.U, mach.D]), 4 * (1 + cfg)
+    return digest([mach.ubm.means, mach.U, mach.V, mach.D]), 4 + 4 * (1 + cfg)
 
 
 def datasets(seed):
@@ -103,7 +127,16 @@ def gen_history(ctx):
 
 def run_history(ops, data):
     results = []
-    for op in ops:
+    pending = {i: core.impl(lambda: construct_lazy(op["est_name"], op["cfg"], op["rs"], data[op["data"]]["m"])) for i, op in enumerate(ops) if op["k"] == "fit" and op["est_name"] in LAZY}
+    for i, op in enumerate(ops):
+        if op["k"] == "fit" and op["est_name"] in LAZY:
+            m = pending[i]
+            r = m if isinstance(m, core.ImplError) else core.impl(lambda: fit_lazy(op["est_name"], op["cfg"], m, data[op["data"]]))
+            if not isinstance(r, core.ImplError):
+                op["draws"] = r[1]
+                r = r[0]
+            results.append(r)
+            continue
         if op["k"] == "seed":
             np.random.seed(op["s"])
             results.append(None)
@@ -151,12 +184,18 @@ def correspondence(ctx):
     return bad
 
 
-def train(est, data, X, y, rs, stats=None):
-    """(name, params) of a fit used by the order / renaming oracles"""
+def train(est, data, X, y, rs, stats=None, between=None):
+    """(name, params) of a fit used by the order / renaming oracles; `between` runs after construction and before fit"""
     import dask.array as da
     from bob.learn.em import ISVMachine, JFAMachine, KMeansMachine, WCCN
 
     ubm = gen.mk_gmm(data["w"], data["m"], data["v"])
+    if est in LAZY:
+        mach = construct_lazy(est, 0, rs, data["m"])
+        if between:
+            between()
+        mach.fit_using_array(X, y)
+        return [mach.ubm.means, mach.U, mach.D] + ([mach.V] if est == "jfa_lazy" else [])
     if est == "kmeans_explicit":
         m = KMeansMachine(2, init_method=np.array(data["m"]), max_iter=3, convergence_threshold=None).fit(X)
         return [m.centroids_]
@@ -191,16 +230,19 @@ def oracle(est, data, seed):
         sig = KNOWN_SIG if est == "kmeans_seeded" else f"depends-on-sample-order:{est}"
         return {"sig": sig, "what": f"{est}: training on a permutation of the rows gives a different model", "perm": perm}
     # class renaming by a permutation of the ids
-    if est in ("isv", "isv_dask", "jfa", "wccn"):
+    if est in ("isv", "isv_dask", "jfa", "wccn") + LAZY:
         ren = r.permutation(3)
         q = core.impl(lambda: train(est, data, X, ren[y], 3))
         if isinstance(q, core.ImplError) or not all(core.close(np.asarray(a, float), np.asarray(b, float), 1e-8, 1e-9) for a, b in zip(base, q)):
             return {"sig": f"depends-on-class-names:{est}", "what": f"{est}: renaming the classes by {ren.tolist()} gives a different model", "renaming": ren}
     # global generator state and earlier fits
-    np.random.seed(int(r.integers(0, 1000)))
-    np.random.normal(size=int(r.integers(1, 7)))
-    core.impl(lambda: train("isv", data, X, y, 11))
-    again = core.impl(lambda: train(est, data, X, y, 3))
+    def activity():
+        np.random.seed(int(r.integers(0, 1000)))
+        np.random.normal(size=int(r.integers(1, 7)))
+        core.impl(lambda: train("isv", data, X, y, 11))
+
+    activity()
+    again = core.impl(lambda: train(est, data, X, y, 3, between=activity))
     if isinstance(again, core.ImplError) or not all(np.array_equal(np.asarray(a), np.asarray(b)) for a, b in zip(base, again)):
         return {"sig": f"depends-on-history:{est}", "what": f"{est}: same data, configuration and random_state after other global-RNG activity gives a different model"}
     return None
@@ -209,8 +251,8 @@ def oracle(est, data, seed):
 def search(ctx):
     fails, seen = [], set()
     data = datasets(ctx.seed + 1)
-    ests = ["kmeans_explicit", "kmeans_seeded", "gmm_explicit", "isv", "isv_dask", "jfa", "wccn"]
-    for i in range(ctx.budget(14, 140)):
+    ests = ["kmeans_explicit", "kmeans_seeded", "gmm_explicit", "isv", "isv_dask", "jfa", "wccn", "isv_lazy", "jfa_lazy"]
+    for i in range(ctx.budget(18, 180)):
         est = ests[i % len(ests)]
         ctx.count("search:" + est)
         ctx.case(["s", est, i], nontrivial=True)
